@@ -37,6 +37,24 @@ fn main() {
         "C13" => ex(props::c13::run),
         "C14" => ex(props::c14::run),
         "C15" => ex(props::c15::run),
+        "sizes" => {
+            // planned block sizes per property (sets x settings), without running anything
+            let t = tier == "thorough";
+            let all: Vec<(&str, Vec<vh::sweep::Block>)> = vec![
+                ("C01", props::c01::blocks(t)), ("C02", props::c02::blocks(t)), ("C03", props::c03::blocks(t)), ("C05", props::c05::blocks(t)),
+                ("C06", props::c06::blocks(t)), ("C08", props::c08::blocks(t)), ("C11", props::c11::blocks(t)), ("C16", props::c16::blocks(t)),
+            ];
+            for (p, bs) in all {
+                let mut tot = 0usize;
+                for b in &bs {
+                    let n = b.uni.len() * b.cfgs.len();
+                    tot += n;
+                    println!("{p} {:>10} = {:>8} sets x {:>5}  {} x {}", n, b.uni.len(), b.cfgs.len(), b.uni.name, b.cfg_desc);
+                }
+                println!("{p} TOTAL {tot}");
+            }
+            0
+        }
         "replay" => vh::replay::replay(&args[2]),
         "selftest" => vh::selftest::run(),
         "C07-child" => props::c07::child(&args[2..]),
